@@ -68,7 +68,7 @@ func (r *runner) generate() {
 	}
 	// boundary shapes on a wider alphabet, arbitrary bytes
 	wide := "abAB \x00\xff%{}."
-	for i := 0; i < cfg.Pick(600, 30000); i++ {
+	for i := 0; i < cfg.Pick(600, 12000); i++ {
 		a := randFrom(rng, "abAB \x00\xff.", 1+rng.Intn(5))
 		pre, suf := randFrom(rng, wide, rng.Intn(6)), randFrom(rng, wide, rng.Intn(6))
 		var v string
@@ -99,8 +99,8 @@ func (r *runner) generate() {
 
 	// ---------------- macro arguments ----------------
 	txv := [][2]string{{"x", hx("Vx")}, {"a", hx("")}, {"t", hx("b a")}, {"a.x", hx("\xff\x00")}, {"tx", hx("%{tx.x}")}}
-	mtexts := enumerate("%{}.txa", 0, cfg.Pick(3, 5))
-	for i := 0; i < cfg.Pick(200, 6000); i++ {
+	mtexts := enumerate("%{}.txa", 0, cfg.Pick(3, 4))
+	for i := 0; i < cfg.Pick(200, 8000); i++ {
 		mtexts = append(mtexts, randFrom(rng, "%{}.txa%{}.tx", 4+rng.Intn(5)))
 	}
 	mtexts = append(mtexts, "%{tx.x}", "pre%{tx.x}post", "%{tx.missing}", "%{TX.X}", "%{Tx.A.X}", "%{tx.a%{tx.x}",
@@ -138,7 +138,7 @@ func (r *runner) generate() {
 			r.runMop(op, a, nil, "")
 		}
 	}
-	for i := 0; i < cfg.Pick(500, 30000); i++ {
+	for i := 0; i < cfg.Pick(500, 12000); i++ {
 		mk := func() string {
 			s := pick(rng, []string{"", "", "-", "+"}) + randFrom(rng, "0123456789", 1+rng.Intn(21))
 			if rng.Intn(10) == 0 {
@@ -161,7 +161,7 @@ func (r *runner) generate() {
 	r.genVbr(rng)
 
 	// ---------------- @validateUrlEncoding ----------------
-	for _, v := range enumerate("%4gA", 0, cfg.Pick(4, 7)) {
+	for _, v := range enumerate("%4gA", 0, cfg.Pick(4, 6)) {
 		r.runSimple("vue", "validateUrlEncoding", "", v)
 	}
 	for b := 0; b < 256; b++ {
@@ -182,7 +182,7 @@ func (r *runner) generate() {
 		r.runSimple("vue", "validateUrlEncoding", "", base[:i]+"%4")
 		r.runSimple("vue", "validateUrlEncoding", "", base[:i]+"%4F")
 	}
-	for i := 0; i < cfg.Pick(300, 20000); i++ {
+	for i := 0; i < cfg.Pick(300, 8000); i++ {
 		r.runSimple("vue", "validateUrlEncoding", "", randFrom(rng, "%%%09afAFgG@`:/ \x00\xff", rng.Intn(40)))
 	}
 
@@ -222,7 +222,7 @@ func (r *runner) genPm(rng *rand.Rand) {
 		}
 	}
 	mkPhrase := func(al string, n int) string { return randFrom(rng, al, n) }
-	for i := 0; i < cfg.Pick(900, 60000); i++ {
+	for i := 0; i < cfg.Pick(900, 25000); i++ {
 		al := pick(rng, []string{"abc", "abcABC", "ab", "abcxyzQ-_/.", "ab\xff\x80", "aAbB\xc3\xa9\x89"})
 		n := 1 + rng.Intn(5)
 		ps := make([]string, n)
@@ -314,7 +314,7 @@ func (r *runner) genPm(rng *rand.Rand) {
 			r.runPmf(f, v, len(v)%2 == 0)
 		}
 	}
-	for i := 0; i < cfg.Pick(200, 8000); i++ {
+	for i := 0; i < cfg.Pick(200, 4000); i++ {
 		var sb strings.Builder
 		for j := 0; j < 1+rng.Intn(5); j++ {
 			sb.WriteString(pick(rng, []string{"", "", " ", "\t", "#"}))
@@ -324,7 +324,7 @@ func (r *runner) genPm(rng *rand.Rand) {
 		r.runPmf(sb.String(), randFrom(rng, "abAB#", rng.Intn(9)), rng.Intn(2) == 0)
 	}
 	// @pmFromDataset: phrases are used as given (no lower-casing, no trimming)
-	for i := 0; i < cfg.Pick(300, 8000); i++ {
+	for i := 0; i < cfg.Pick(300, 4000); i++ {
 		n := 1 + rng.Intn(4)
 		ps := make([]string, n)
 		for j := range ps {
@@ -362,7 +362,7 @@ func (r *runner) genVbr(rng *rand.Rand) {
 		r.runSimple("vbr", "validateByteRange", a, "AZaz")
 		r.runSimple("vbr", "validateByteRange", a, "hello\x00")
 	}
-	for i := 0; i < cfg.Pick(500, 30000); i++ {
+	for i := 0; i < cfg.Pick(500, 12000); i++ {
 		var items []string
 		for j := 0; j < 1+rng.Intn(4); j++ {
 			lo := pick(rng, []string{"0", "1", "9", "10", "31", "32", "64", "65", "126", "127", "128", "200", "254", "255", "256", "-1"})
@@ -408,7 +408,7 @@ func (r *runner) genUtf8(rng *rand.Rand) {
 	}
 	good := []string{"a", "\xc2\xa0", "\xdf\xbf", "\xe0\xa0\x80", "\xed\x9f\xbf", "\xee\x80\x80", "\xef\xbf\xbd", "\xf0\x90\x80\x80", "\xf4\x8f\xbf\xbf", "\xe2\x82\xac"}
 	bad := []string{"\x80", "\xc0\xaf", "\xed\xa0\x80", "\xf4\x90\x80\x80", "\xe2\x82", "\xf0\x9f\x98", "\xff", "\xc2"}
-	for i := 0; i < cfg.Pick(400, 20000); i++ {
+	for i := 0; i < cfg.Pick(400, 8000); i++ {
 		var sb strings.Builder
 		for j := 0; j < 1+rng.Intn(6); j++ {
 			if rng.Intn(5) == 0 {
@@ -429,11 +429,13 @@ var rxPatterns = []string{
 	"^(a)(b)(c)(d)(e)(f)(g)(h)(i)$", "^(a)(b)(c)(d)(e)(f)(g)(h)(i)(j)(k)(l)$", "(a)(b)?(c)", "(a)|(b)", "((a)(b))+", "a.b", "^b$", "(?i)(ab)+",
 	"()", "(a*)(b*)", "x(\\d+)y(\\w*)", "(?:a)(b)", "(?P<n>a+)", "a", "", "^$", "(.)(.)(.)(.)(.)(.)(.)(.)(.)(.)(.)", "(\\xc3\\xa9)(.)?",
 	"(a)(b)(c)(d)(e)(f)(g)(h)(i)(j)", "(a)(b)(c)(d)(e)(f)(g)(h)(i)(j)?",
+	// byte escapes that are not valid UTF-8: the binary matcher (F50: it keeps (?sm))
+	"\\xff.b", "^b\\xff", "(\\xff)(.)(b)?", "[\\x80-\\xff]+(.)", "(a)|(\\xfe)", "x\\x{ff}(.*)$",
 }
 
 func (r *runner) genRx(rng *rand.Rand) {
 	cfg := r.cfg
-	values := []string{"abcdefghi", "abcdefghijkl", "abcdefghij", "ac", "abc", "b", "a", "abab", "a\nb", "a\nb\nc", "ABab", "", "x12yz_", "aaabbb",
+	values := []string{"\xff\nb", "a\nb\xff", "x\xff\n\n", "\x80\x81\n", "\xfe", "abcdefghi", "abcdefghijkl", "abcdefghij", "ac", "abc", "b", "a", "abab", "a\nb", "a\nb\nc", "ABab", "", "x12yz_", "aaabbb",
 		"0123456789abcdef", "\xc3\xa9!", "\xff", "xa\xffb", "abcdefghijk", "b\n"}
 	for _, p := range rxPatterns {
 		for _, v := range values {
@@ -443,7 +445,7 @@ func (r *runner) genRx(rng *rand.Rand) {
 			}
 		}
 	}
-	for i := 0; i < cfg.Pick(300, 10000); i++ {
+	for i := 0; i < cfg.Pick(300, 5000); i++ {
 		r.runRx(pick(rng, rxPatterns), randFrom(rng, "abcdefghijkl\nAB1_", rng.Intn(14)), rng.Intn(4) > 0)
 	}
 	// implementation-side expectations stated by the property: RE2 semantics with dot matching newline
@@ -451,6 +453,10 @@ func (r *runner) genRx(rng *rand.Rand) {
 		p, v string
 		want bool
 	}{{"a.b", "a\nb", true}, {"^a.*c$", "a\n\nc", true}, {"a[^x]b", "a\nb", true}, {"^b", "a\nb", true}, {"(?-s)a.b", "a\nb", false}, {"a{2,3}", "a", false}, {"\\bfoo\\b", "a foo.", true}, {"(?i)SeLeCt", "xselectx", true}}
+	exp = append(exp, []struct {
+		p, v string
+		want bool
+	}{{"\\xff.b", "\xff\nb", true}, {"^b\\xff", "a\nb\xff", true}, {"[\\x80-\\xff].", "\x80\n", true}, {"\\xff$", "\xff\nx", true}}...)
 	for _, e := range exp {
 		cj := &caseJSON{Kind: "rx", ArgHex: hx(e.p), ValueHex: hx(e.v)}
 		_, m, ok := rxOracle(e.p, e.v)
@@ -459,6 +465,28 @@ func (r *runner) genRx(rng *rand.Rand) {
 			r.fail("c15-rx-dotall", "regexp semantics differ from the stated expectation", cj)
 		}
 		r.runRx(e.p, e.v, false)
+		// the operator itself, not only the oracle engine
+		r.oracleN++
+		if got, ok := rxResult(e.p, e.v); !ok || got != e.want {
+			r.fail("c15-rx-dotall", "@rx differs from the stated expectation (dot matches newline, ^/$ at line ends)", cj)
+		}
+	}
+	// both regexp paths decide the same language: (?:\xfe|P) forces the binary matcher and is
+	// equivalent to P on values without the byte \xfe (ASCII patterns and values)
+	for _, p := range rxPatterns {
+		if strings.Contains(p, "\\x") || strings.Contains(p, "(?P<") {
+			continue
+		}
+		for i := 0; i < cfg.Pick(12, 200); i++ {
+			v := randFrom(rng, "abcdefghijkl\n\nAB1_", rng.Intn(14))
+			cj := &caseJSON{Kind: "rx", ArgHex: hx(p), ValueHex: hx(v), Note: "binary path vs regexp path"}
+			a, ok1 := rxResult(p, v)
+			b, ok2 := rxResult("(?:\\xfe|"+p+")", v)
+			r.oracleN++
+			if ok1 != ok2 || a != b {
+				r.fail("c15-rx-binary-path", "@rx P and @rx (?:\\xfe|P) (binary matcher) disagree on a value without \\xfe", cj)
+			}
+		}
 	}
 }
 
@@ -476,7 +504,7 @@ func (r *runner) genParse(rng *rand.Rand) {
 	}
 	names := []string{"rx", "streq", "contains", "strmatch", "beginsWith", "endsWith", "within", "eq", "ge", "gt", "le", "lt", "pm",
 		"validateByteRange", "validateUrlEncoding", "validateUtf8Encoding", "unconditionalMatch", "noMatch", "nosuch", "Rx", "", "x"}
-	for i := 0; i < cfg.Pick(500, 10000); i++ {
+	for i := 0; i < cfg.Pick(500, 5000); i++ {
 		o := pick(rng, []string{"", "@", "!@", "!", "!!", "@@", " ", "!@ ", "@ "}) + pick(rng, names) +
 			pick(rng, []string{"", " ", "  ", "\t", " \t"}) + pick(rng, []string{"", "a", "a b", "1-5", "7", "%{tx.x}", "a ", "@rx", "!a", "%{"})
 		r.runParse(o)
@@ -511,7 +539,7 @@ func (r *runner) genRules(rng *rand.Rand) {
 	}
 	ops := []string{"streq", "contains", "strmatch", "beginsWith", "endsWith", "within", "eq", "ge", "gt", "le", "lt", "pm",
 		"validateByteRange", "validateUrlEncoding", "validateUtf8Encoding", "unconditionalMatch", "noMatch", "rx"}
-	for i := 0; i < cfg.Pick(700, 12000); i++ {
+	for i := 0; i < cfg.Pick(700, 6000); i++ {
 		name := pick(rng, ops)
 		var arg, v string
 		switch name {
